@@ -36,9 +36,9 @@ E == INSTANCE Engine WITH
        GMayKill <- LAMBDA p, m : p.b[m.t+1] # 0 \/ m.p \in {KNIGHT, BISHOP},
        GInsufficient <- LAMBDA p : Insufficient(p.b),
        NoMove <- NoMv, NoProgressLimit <- 100, HaltOnMutate <- TRUE
-NoAct == [active |-> FALSE, root |-> <<>>, live |-> 0]
-Eng(bd, a) == [bd |-> bd, active |-> a.active, root |-> a.root, live |-> a.live]
-ActOf(s) == [active |-> s.active, root |-> s.root, live |-> s.live]
+ActOf(s) == [k \in (DOMAIN s) \ {"bd"} |-> s[k]]
+Eng(bd, a) == [k \in (DOMAIN a) \cup {"bd"} |-> IF k = "bd" THEN bd ELSE a[k]]
+NoAct == ActOf(E!NewEngine(<<>>, 0, 0))
 
 StartFen == "rnbqkbnr/pppppppp/8/8/8/8/PPPPPPPP/RNBQKBNR w KQkq - 0 1"
 
@@ -114,15 +114,17 @@ Next ==
        [] e.op = "api" ->
             \* Engine.Reset / Move / TakeBack / Analyze / Halt called directly: one Engine.tla call each
             LET s0 == Eng(oracle, act)
-                r == CASE e.kind = "start" -> [s |-> E!NewEngine(LET d == Decode(StartFen) IN B!NewBoard(d.pos, d.np, d.fm)), err |-> FALSE]
+                r == CASE e.kind = "start" -> [s |-> E!NewEngine(LET d == Decode(StartFen) IN B!NewBoard(d.pos, d.np, d.fm), e.opts.depth, e.opts.hash), err |-> FALSE]
                        [] e.kind = "reset" -> E!Reset(s0, e.bad = 0, IF e.bad = 0 THEN LET d == Decode(e.arg) IN B!NewBoard(d.pos, d.np, d.fm) ELSE oracle)
                        [] e.kind = "move" -> E!Move(s0, e.bad = 0, IF e.bad = 0 THEN MoveOf(e.arg) ELSE NoMv)
                        [] e.kind = "takeback" -> E!TakeBack(s0)
-                       [] e.kind = "analyze" -> E!Analyze(s0)
+                       [] e.kind = "analyze" -> E!Analyze(s0, e.limit)
                        [] e.kind = "halt" -> E!Halt(s0)
+                       [] e.kind = "setdepth" -> E!SetDepth(s0, e.n)
+                       [] e.kind = "sethash" -> E!SetHash(s0, e.n)
                 board == e.kind \in {"start", "reset", "move", "takeback"}
                 \* the limit an analysis runs under: the one requested (0 = explicitly none), else the engine's default
-                lim == IF e.kind = "analyze" THEN (IF e.limit >= 0 THEN e.limit ELSE e.default) ELSE 0
+                lim == r.s.limit
                 f == (IF board THEN Chk("c14.engine-call-outcome", (e.err = 1) = r.err)
                                ELSE Chk("x.engine-call-outcome-" \o e.kind, (e.err = 1) = r.err))
                      \cup JudgeState(e, r.s.bd)
@@ -135,6 +137,10 @@ Next ==
                                 \cup Chk("c15.analysis-without-limit-ended", lim = 0 => e.closed = -1)
                            ELSE {})
                      \cup Chk("x.engine-searches-current", E!SearchesCurrent(r.s) /\ E!NoLeak(r.s))
+                     \cup Chk("x.engine-options", e.opts.depth = r.s.depth /\ e.opts.hash = r.s.hash)
+                     \cup Chk("x.engine-tables-made", e.tables = -1 \/ e.tables = r.s.tables)
+                     \cup (IF e.kind = "analyze" /\ ~r.err /\ e.err = 0
+                           THEN Chk("x.engine-analysis-table", e.ttseen = -1 \/ e.ttseen = r.s.ttsize) ELSE {})
             IN /\ (f # {} => PrintT("FAIL|" \o ToString(l) \o "|" \o ToString(f)))
                /\ oracle' = r.s.bd
                /\ act' = ActOf(r.s)
